@@ -143,6 +143,8 @@ structure Policy where
   dryRun : Bool := false
   provider : Str := []
   selector : List (Str × Str) := []     -- spec.selector.matchLabels (empty = no selector)
+  /-- spec.targetRefs (or the legacy single targetRef): (group, kind, name, namespace) -/
+  targetRefs : List (Str × Str × Str × Str) := []
   rules : List Rule := []
 deriving Repr, DecidableEq, Inhabited
 
@@ -777,11 +779,28 @@ def upsert (l : List (Str × EPolicy)) (k : Str) (v : EPolicy) : List (Str × EP
   | [] => [(k, v)]
   | (k', v') :: rest => if k' = k then (k, v) :: rest else (k', v') :: upsert rest k v
 
-/-- `AuthorizationPolicies.ListAuthorizationPolicies` for a selector-based workload: policies of
-    the root namespace and of the workload's namespace whose selector is a subset of the labels
-    (`WorkloadPolicyMatcher.isSelected`). -/
+def gatewayNameLabel : Str := "gateway.networking.k8s.io/gateway-name".toList
+def gatewayGroup : Str := "gateway.networking.k8s.io".toList
+
+def lookupLabel (k : Str) : List (Str × Str) → Option Str
+  | [] => none
+  | (k', v) :: rest => if k' = k then some v else lookupLabel k rest
+
+/-- `WorkloadPolicyMatcher.ShouldAttachPolicy` for a sidecar or gateway proxy (not a waypoint; selector
+    based gateway policy enabled, the default). -/
+def shouldAttach (w : Workload) (p : Policy) : Bool :=
+  match lookupLabel gatewayNameLabel w.labels with
+  | none => p.targetRefs.isEmpty && p.selector.all (w.labels.contains ·)
+  | some gw =>
+    if p.targetRefs.isEmpty then p.selector.all (w.labels.contains ·)
+    else p.targetRefs.any fun ref =>
+      w.ns == p.ns && (ref.2.2.2.isEmpty || ref.2.2.2 == w.ns) &&
+      ref.1 == gatewayGroup && ref.2.1 == "Gateway".toList && ref.2.2.1 == gw
+
+/-- `GetAuthorizationPolicies` + `ListAuthorizationPolicies`: policies of the root namespace and of the
+    workload's namespace that attach to the workload. -/
 def selectPolicies (w : Workload) (ps : List Policy) : List Policy :=
-  ps.filter fun p => (p.ns == w.rootNs || p.ns == w.ns) && p.selector.all (w.labels.contains ·)
+  ps.filter fun p => (p.ns == w.rootNs || p.ns == w.ns) && shouldAttach w p
 
 structure BuildOpts where
   bundle : List Str            -- trustdomain.Bundle.TrustDomains (local trust domain first)
@@ -960,6 +979,10 @@ def compileCustomSelected (o : BuildOpts) (c : CustomOpts) (ps : List Policy) : 
       if c.providers.contains pr then
         (if o.shapeTCP && c.httpProviders.contains pr then [] else customFilters o (ps.filter (·.action == .custom)) pr)
       else [.rbac (badCustomFilter o (ps.filter (·.action == .custom)) pr)]
+
+/-- The plugin's `BuildHTTP(class)`: nothing on sidecar outbound listeners, the same filters on sidecar
+    inbound and gateway listeners. -/
+def forListenerClass (outbound : Bool) (fs : List GFilter) : List GFilter := if outbound then [] else fs
 
 /-- The whole authorization part of a filter chain: CUSTOM filters first, then AUDIT, DENY, ALLOW
     (the order in which the authz plugin adds them). -/
